@@ -1459,9 +1459,17 @@ const char* rtosc_skip_next_printed_arg(const char* src, int* skipped,
                 bool llhsarg_is_useless = false;
                 if(llhssrc)
                 {
+                    // an ellipsis inside a quoted string (possibly behind a
+                    // multiplier, 3x"...") is text, not a range
+                    const char* llhsval = is_range_multiplier(llhssrc)
+                                        ? strchr(llhssrc, 'x') + 1
+                                        : llhssrc;
                     const char* next_ellipsis_from_llhssrc =
-                            strstr(llhssrc, "...");
-                    if(next_ellipsis_from_llhssrc < ellipsis)
+                            (*llhsval == '"')
+                            ? NULL
+                            : strstr(llhssrc, "...");
+                    if(next_ellipsis_from_llhssrc &&
+                       next_ellipsis_from_llhssrc < ellipsis)
                     {
                         llhssrc = next_ellipsis_from_llhssrc + 2;
                         while(isspace(*++llhssrc)) ;
